@@ -210,7 +210,7 @@ func ruleC04Seq(r *Run) {
 							okC, dC := true, "the appended list is caller-supplied middleware (it does not derive from the router's or a route's own lists)"
 							for _, lf := range []*types.Var{m.rGroup, m.rHandlers, m.rtHandlers} {
 								lf := lf
-								if flowsFrom(args[k], func(x ssa.Value) bool { return isLoadOfField(x, lf) }) {
+								if flowsFromDeep(args[k], func(x ssa.Value) bool { return isLoadOfField(x, lf) }) {
 									okC = false
 									dC = "the route's list is extended with (a list derived from) " + lf.Name() + " AFTER the route's own middleware: group/global middleware would run inside the route's middleware (expected order: global, groups outer to inner, route, handler)"
 								}
@@ -1018,7 +1018,7 @@ func init() {
 			NotDecided:  []string{"that code after Next() runs in reverse order (consequence of Go's call stack plus C04-CURSOR; argued)", "response bodies", "behaviour of user handlers that replace the chain through the exported SetHandlers mid-request"},
 			Assumptions: []string{"handlers do not call SetHandlers/Reset on their own context mid-chain", "go/ssa lowering of append / composite literals / copy"},
 		},
-		Rules: []ruleFn{{"C04-SEQ", ruleC04Seq}, {"C04-CURSOR", ruleC04Cursor}, {"C04-VERBS", ruleC04Verbs}, {"C12-USE", ruleC12CopyUse}, {"C06-DISPATCH", ruleC06Dispatch}},
+		Rules: []ruleFn{{"C04-SEQ", ruleC04Seq}, {"C04-CURSOR", ruleC04Cursor}, {"C04-VERBS", ruleC04Verbs}, {"C12-USE", ruleC12CopyUse}, {"C06-DISPATCH", ruleC06Dispatch}, {"C07-COPY", ruleC07Copy}},
 	})
 	register(&property{
 		Meta: propertyMeta{
@@ -1036,6 +1036,6 @@ func init() {
 			NotDecided:  []string{"a panic inside the callback leaves the scope extended (no defer; outside the property's quantifier)", "reachability 'exactly under the concatenated prefixes' as a string fact (C11)"},
 			Assumptions: []string{"registration is single-threaded"},
 		},
-		Rules: []ruleFn{{"C12-BRACKET", ruleC12Bracket}, {"C12-COPY", ruleC12CopyUse}, {"C04-SEQ", ruleC04Seq}},
+		Rules: []ruleFn{{"C12-BRACKET", ruleC12Bracket}, {"C12-COPY", ruleC12CopyUse}, {"C04-SEQ", ruleC04Seq}, {"C12-DERIVED", ruleC12Derived}},
 	})
 }
